@@ -96,8 +96,37 @@ def _noargs(rng, obj):
     return {}
 
 
+HANDED = []     # arrays the harness (the caller) handed to the object in the current call
+
+
 def _arr(x):
+    """an array argument owned by the caller: after the call the caller re-uses its buffer (see call_op)"""
+    a = np.array(x, dtype=float)
+    HANDED.append(a)
+    return a
+
+
+def _arr_rt(x):
+    """settings arrays (smoothing frequencies, response periods): the unchanged code keeps a reference to the caller's array
+    on some paths (response_times=, gen_smooth_fa_spectrum(smooth_fa_freqs=)) and copies on others; the properties speak
+    of the caller's VALUES array only (C05), so a caller writing into a settings array afterwards is outside them and
+    these arrays are not overwritten"""
     return np.array(x, dtype=float)
+
+
+def call_op(op, obj, args, caller_reuses_buffers=True):
+    """one public call; afterwards the caller overwrites, in place, every array it passed in.  An object that kept a
+    reference instead of its own copy now reports values that no operation on it produced, with its caches untouched."""
+    del HANDED[:]
+    try:
+        return op.call(obj, args)
+    finally:
+        if caller_reuses_buffers:
+            for a in HANDED:
+                if a.size and a.flags.writeable:
+                    a *= -3.5
+                    a += 11.0
+        del HANDED[:]
 
 
 def _freqs(rng, k=None):
@@ -200,7 +229,7 @@ def build_ops():
 
     def _set(attr):
         def f(o, a):
-            setattr(o, attr, _arr(a['freqs']))
+            setattr(o, attr, _arr_rt(a['freqs']))
         return f
     S('smooth_fa_freqs=', 'smooth_fa_freqs', lambda rng, o: {'freqs': _freqs(rng)}, _set('smooth_fa_freqs'))
     S('smooth_fa_frequencies=', 'smooth_fa_frequencies', lambda rng, o: {'freqs': _freqs(rng)}, _set('smooth_fa_frequencies'))
@@ -216,18 +245,18 @@ def build_ops():
       lambda rng, o: {'limits': _freqs(rng, 2), 'n_points': rng.randint(2, 5)},
       lambda o, a: o.set_smooth_fa_frequecies_by_range(tuple(a['limits']), a['n_points']))
     S('gen_smooth_fa_spectrum(smooth_fa_freqs)', 'gen_smooth_fa_spectrum', lambda rng, o: {'freqs': _freqs(rng)},
-      lambda o, a: o.gen_smooth_fa_spectrum(smooth_fa_freqs=_arr(a['freqs'])))
+      lambda o, a: o.gen_smooth_fa_spectrum(smooth_fa_freqs=_arr_rt(a['freqs'])))
 
     def T(name, coqname, call):
         ops.append(Op(name, 'KT T_' + coqname, 'rt', 'A', lambda rng, o: {'response_times': _periods(rng)}, call))
 
     def _set_rt(o, a):
-        o.response_times = _arr(a['response_times'])
+        o.response_times = _arr_rt(a['response_times'])
     T('response_times=', 'response_times', _set_rt)
-    T('gen_response_spectrum(response_times)', 'gen_response_spectrum', lambda o, a: o.gen_response_spectrum(response_times=_arr(a['response_times'])))
+    T('gen_response_spectrum(response_times)', 'gen_response_spectrum', lambda o, a: o.gen_response_spectrum(response_times=_arr_rt(a['response_times'])))
     T('generate_response_spectrum(response_times)', 'generate_response_spectrum',
-      lambda o, a: o.generate_response_spectrum(response_times=_arr(a['response_times'])))
-    T('response_series(response_times)', 'response_series', lambda o, a: o.response_series(response_times=_arr(a['response_times'])))
+      lambda o, a: o.generate_response_spectrum(response_times=_arr_rt(a['response_times'])))
+    T('response_series(response_times)', 'response_series', lambda o, a: o.response_series(response_times=_arr_rt(a['response_times'])))
     return ops
 
 
@@ -238,10 +267,15 @@ OPS_BY_NAME = {o.name: o for o in OPS}
 # ------------------------------------------------------------------ objects
 def construct(kind, values, dt, sf, rt):
     import eqsig
+    v, f = np.array(values, dtype=float), np.array(sf, dtype=float)
     if kind == 'A':
-        return eqsig.AccSignal(np.array(values, dtype=float), dt, smooth_fa_freqs=np.array(sf, dtype=float),
-                               response_times=np.array(rt, dtype=float))
-    return eqsig.Signal(np.array(values, dtype=float), dt, smooth_fa_freqs=np.array(sf, dtype=float))
+        r = np.array(rt, dtype=float)
+        o = eqsig.AccSignal(v, dt, smooth_fa_freqs=f, response_times=r)
+    else:
+        o = eqsig.Signal(v, dt, smooth_fa_freqs=f)
+    v *= -3.5                                 # the caller re-uses its values buffer: the object has its own copy (C05)
+    v += 11.0
+    return o
 
 
 def snapshot(kind, obj):
@@ -277,14 +311,14 @@ class Skip(Exception):
 def do_step(kind, obj, op, args, full):
     """apply one operation; returns the list of comparisons (Coq text). Raises Skip / ImplError."""
     if not full:
-        op.call(obj, args)
+        call_op(op, obj, args)
         return []
     snap = snapshot(kind, obj)
     cmps = []
     if op.cat == 'read':
-        first = flat(op.call(obj, args))
-        second = flat(op.call(obj, args))
-        fr = flat(op.call(fresh(kind, snap), args))
+        first = flat(call_op(op, obj, args))
+        second = flat(call_op(op, obj, args))
+        fr = flat(call_op(op, fresh(kind, snap), args))
         cmps.append(cm(second, first, '0'))
         cmps.append(cm(first, fr, 'T40'))
         cmps.extend(src_cmps(kind, obj, snap))
@@ -293,11 +327,11 @@ def do_step(kind, obj, op, args, full):
     e1 = e2 = None
     r1 = r2 = None
     try:
-        r2 = op.call(clone, args)
+        r2 = call_op(op, clone, args, caller_reuses_buffers=False)
     except Exception as e:  # noqa
         e2 = e
     try:
-        r1 = op.call(obj, args)
+        r1 = call_op(op, obj, args)
     except Exception as e:  # noqa
         e1 = e
     if e1 is not None and e2 is not None:
@@ -384,7 +418,7 @@ def base_record(rng, style, n=None):
         dt = 0.5
     if not np.any(v):
         v[0] = 1.0
-    return {'values': v, 'dt': dt, 'sf': _arr(_freqs(rng, 3)), 'rt': _arr(_periods(rng))}
+    return {'values': v, 'dt': dt, 'sf': _arr_rt(_freqs(rng, 3)), 'rt': _arr_rt(_periods(rng))}
 
 
 def explore(rep, rng, kind, cases):
@@ -470,7 +504,7 @@ def random_histories(rep, rng, kind, cases, count, maxlen):
             o = rng.choice(bycat[rng.choice(cats)])
             a = o.mkargs(rng, shadow)
             try:
-                o.call(shadow, a)
+                call_op(o, shadow, a)
             except Exception:  # noqa
                 continue
             hist.append((o.name, a))
@@ -553,12 +587,12 @@ def replay_call(replay):
     np.seterr(all='ignore')
     a = replay['args']
     kind = 'A' if a['class'] == 'AccSignal' else 'S'
-    base = {'values': _arr(a['values']), 'dt': a['dt'], 'sf': _arr(a['smooth_fa_freqs']),
-            'rt': (_arr(a['response_times']) if a['response_times'] is not None else None)}
+    base = {'values': _arr_rt(a['values']), 'dt': a['dt'], 'sf': _arr_rt(a['smooth_fa_freqs']),
+            'rt': (_arr_rt(a['response_times']) if a['response_times'] is not None else None)}
     obj = construct(kind, base['values'], base['dt'], base['sf'], base['rt'])
     out = {'flags_after_each_step': []}
     for name, args in a['history']:
-        OPS_BY_NAME[name].call(obj, args)
+        call_op(OPS_BY_NAME[name], obj, args)     # as in the run: the caller's argument arrays are overwritten afterwards
         out['flags_after_each_step'].append(mask(kind, obj))
     fr = fresh(kind, snapshot(kind, obj))
     out['final'] = {r: {'object': flat(getattr(obj, r)), 'fresh_object': flat(getattr(fr, r))} for r in (SWEEP_ACC if kind == 'A' else SWEEP_SIG)}
